@@ -141,3 +141,15 @@ pub open spec fn classified(m: MidParseResult, r: ParseResult<Narsese>) -> bool 
 /// replaced by this opaque helper; error text is outside every property.  Assumed not to panic.
 #[verifier::external_body]
 pub fn vx_join(errs: &Vec<String>) -> String { errs.join("\n\t") }
+
+/// C08: "the state a fresh parser for (format, input) starts from".  Both the single-input path
+/// (`ParseState::new` / `from_env`) and the multi-input path (`reset_to`) must establish it
+/// before the common entry body runs; with A3 (a safe Rust function of its arguments) equal
+/// start states give equal outcomes.
+pub open spec fn is_fresh(st: &ParseState<'_, &str>, format: &NarseseFormat<&str>, input: Seq<char>) -> bool {
+    &&& st.format == format
+    &&& st.env@ == input
+    &&& st.len_env == input.len()
+    &&& st.head == 0
+    &&& mid_empty(st.mid_result)
+}
